@@ -85,6 +85,10 @@ CHECKS["C19"] = dict(level="exploration", design="4/C19", engine="sandbox-and-wa
     technique="differential testing over generated inputs and extra-argument lists: cmake -P driving cminx_gen_rst() with an argv-logging wrapper vs the direct CLI run",
     text="A generated driver script calls cminx_gen_rst() through `cmake -P` with CMINX_EXECUTABLE bound to a wrapper that logs argv and runs the working-tree CMinx; logged argv must be input, '-r' iff directory, the extras verbatim (spaces, unicode, quotes, dollars, backslashes) and '-o output'; the output tree must be byte-identical to the direct CLI run; cmake must fail (no marker file) iff the direct run fails (missing path, syntax error, faulty file in a directory).",
     note=SBX_NOTE + " CMake 3.25.1 executes cmake/cminx.cmake from the tree under test; values contain no ';'.")
+CHECKS["C06"] = dict(level="fault_enumeration", design="4/C06", engine="cmake-differential-and-reference-lexer",
+    technique="fault injection over generated modules: fault kind x token-boundary position (drawn in quick, enumerated in thorough), classified by a reference lexer, judged on exit status / written pages / skipped-character monitor",
+    text="Lexical and syntactic faults (stray or unterminated quote, backslash+alphanumeric, backslash at EOF, unterminated bracket comment, extra/missing parentheses, bare words) are injected at token-boundary positions outside comments of generated valid modules, singly and in pairs, in file and directory mode; whenever the reference lexer classifies the mutant as invalid, cminx.main must fail with a non-zero status and leave no page for that file; a successful run with ANTLR 'token recognition error' output is always a violation. The thorough tier enumerates every position x kind of each drawn module.",
+    note="Trusts vlib/ref_lexer.py for the classification (validated against CMake in C05; a sample of mutants is cross-checked against `cmake -P` parse errors, disputed mutants are dropped, >0.5% disputed = exit 2). Faults inside comments and absorbed faults are not demanded.")
 NOT_APPLICABLE = [
 ]
 
